@@ -22,6 +22,12 @@ func famC07(g *Gen, o *Out, n int, thorough bool) {
 			maxB = 12
 		}
 		bs := g.Blocks(maxB)
+		// the first 32 cases are a fixed corpus: the edge block list in every archive shape x store
+		// identity option x API x key mode, so that what they show does not depend on the seed
+		force := c < 32
+		if force {
+			bs = g.EdgeBlocks()
+		}
 		o.HashBlocks(bs)
 		roots := g.Roots(bs)
 		// the archive: CARv1, CARv2 with embedded index (identity stored or not), index-less CARv2
@@ -29,6 +35,9 @@ func famC07(g *Gen, o *Out, n int, thorough bool) {
 		var arch []byte
 		var dp uint64
 		wsid := g.pick(2) == 0
+		if force {
+			shape, wsid = c%4, true
+		}
 		switch shape {
 		case 0:
 			arch = writeAll(roots, bs, true)
@@ -52,11 +61,17 @@ func famC07(g *Gen, o *Out, n int, thorough bool) {
 		wo := wOpts{codec: []string{"mh", "sorted"}[g.pick(2)], mcs: 1 << 20}
 		wo.whole = g.pick(2) == 0
 		wo.sid = g.pick(2) == 0
-		if shape == 0 && g.pick(4) == 0 { // null padding after a CARv1, read with ZeroLengthSectionAsEOF
+		if force {
+			wo.sid, wo.whole = (c/4)%2 == 0, (c/16)%2 == 0
+		}
+		if shape == 0 && (g.pick(4) == 0 || (force && (c/16)%2 == 1)) { // null padding after a CARv1, read with ZeroLengthSectionAsEOF
 			arch = append(arch, make([]byte, 1+g.pick(4))...)
 			wo.z = true
 		}
 		api := []string{"bs", "st"}[g.pick(2)]
+		if force {
+			api = []string{"bs", "st"}[(c/8)%2]
+		}
 		src := "auto"
 		ssid := false
 		if api == "bs" && g.pick(3) == 0 {
